@@ -4,7 +4,9 @@ export default grammar({
   word: $ => $.identifier,
   rules: {
     source: $ => repeat($._statement),
-    _statement: $ => choice($.get, $.set, $.mk, $.call, $.del),
+    _statement: $ => choice($.get, $.set, $.mk, $.call, $.del, $.tag),
+    // a token that is an extra everywhere else is an ordinary member here: re-parses can reuse it in the other role
+    tag: $ => seq('@', $.note),
     // the same visible symbol (path) un-aliased in one production and aliased in another of the same parent
     get: $ => seq('get', $.path, ';'),
     set: $ => seq('set', alias($.path, $.target), optional(seq('=', field('value', $.path))), ';'),
